@@ -438,4 +438,17 @@ def derived_sync_rule(ctx):
     from .common import derived_sync
     return derived_sync(ctx, 'DERIVED-SYNC')
 
-RULES = [derived_sync_rule, no_stale, newton_batch, pure, inverted_fresh, no_param_mutation, reset_first, rng_sites]
+def c01_init_stores(ctx):
+    """shared with C01: constructors keep private, float-typed copies of the
+    coefficient containers they are given (no aliasing of caller lists or of
+    the shared default, no integer tables)"""
+    from .C01 import init_stores as _r
+    return _r(ctx)
+
+def c01_setters(ctx):
+    """shared with C01: setters change exactly their quantity and leave a
+    geometry that can be traced (reset of perturbations goes through them)"""
+    from .C01 import setter_writes as _r
+    return _r(ctx)
+
+RULES = [c01_setters, c01_init_stores, derived_sync_rule, no_stale, newton_batch, pure, inverted_fresh, no_param_mutation, reset_first, rng_sites]
